@@ -23,8 +23,8 @@ for d in sorted(glob.glob(os.path.join(V, "seeded", "C*-*"))):
     meta = json.load(open(os.path.join(d, "meta.json")))
     conf = json.load(open(os.path.join(d, "confirm.json"))) if os.path.exists(os.path.join(d, "confirm.json")) else {}
     det = json.load(open(os.path.join(d, "detection.json"))) if os.path.exists(os.path.join(d, "detection.json")) else {}
-    best = None
-    for k, v in det.items():
+    best = det.get("final")
+    for k, v in ({} if best else det).items():
         if best is None or v.get("detected") or (best.get("exit") == 0 and v.get("exit") == 2):
             if not (best and best.get("detected")):
                 best = v
